@@ -3,6 +3,7 @@
    produces, security and operations. Definitions only.
    Go maps are lists here; verify's answer is proved independent of their order (APIValidateProofs). *)
 From V Require Export Respond.
+From V Require Export PathCleanLib.
 
 (* ---- byte strings ordered as sort.Strings orders them ---- *)
 Fixpoint bytes_leb (a b : bytes) : bool :=
@@ -27,6 +28,7 @@ Record opdesc := mkop {
   op_security : option (list (list bytes))    (* None: not stated; Some alternatives, each a list of scheme names *)
 }.
 Record desc := mkdesc {
+  g_base : bytes;                             (* basePath as the description writes it; empty when absent *)
   g_consumes : list bytes;
   g_produces : list bytes;
   g_security : list (list bytes);
@@ -109,6 +111,25 @@ Definition effective_produces (d : desc) (o : opdesc) : list bytes :=
   match op_produces o with [] => g_produces d | l => l end.
 Definition effective_security (d : desc) (o : opdesc) : list (list bytes) :=
   match op_security o with Some alts => alts | None => g_security d end.
+
+(* ---- the route table: DefaultRouter / AddRoute ----
+   Every declared operation is handed to AddRoute under path.Join(basePath, template). AddRoute recovers the
+   template by cutting the cleaned base path (without a trailing slash) off the front, an empty rest being the
+   root template, and asks the API for the handler of (method, template); without a handler no route is added.
+   The handler table (newRoutableUntypedAPI) holds the declared operations that have a registered handler. *)
+Definition trim_prefix (pre s : bytes) : bytes := if has_prefix pre s then skipn (length pre) s else s.
+Definition route_base (base : bytes) : bytes :=
+  let bp := clean base in if has_suffix [SL] bp then removelast bp else bp.
+Definition full_route (d : desc) (o : opdesc) : bytes := path_join (g_base d) (op_path o).
+Definition route_template (d : desc) (o : opdesc) : bytes :=
+  match trim_prefix (route_base (g_base d)) (full_route d o) with
+  | [] => [SL]
+  | t => t
+  end.
+Definition handler_for (a : api) (d : desc) (method path : bytes) : bool :=
+  mem_bytes (op_key method path) (a_ops a) && mem_bytes (op_key method path) (required_ops d).
+Definition route_added (a : api) (d : desc) (o : opdesc) : bool :=
+  handler_for a d (op_method o) (route_template d o).
 
 (* the route's produces (after the declared-order repair) and the answer to a plain GET-like request
    without Accept header whose handler returns a value, for an operation declaring a 200 response *)
